@@ -142,6 +142,15 @@ Theorem C17_entry_points_defined : forall ep args, is_ub (c_entry ep args) = fal
 Proof. exact entry_no_ub. Qed.
 Print Assumptions C17_entry_points_defined.
 
+(* ... and the same for any sequence of calls made in one process: the model keeps no state between calls, so
+   what a call answers does not depend on the calls made before or after it (tied to the code by the 'seq' cases of
+   the harness: same answers as in a fresh process, harness-owned descriptors untouched) *)
+Theorem C17_entry_sequences : forall pre calls post,
+  c_entry_seq true (pre ++ calls ++ post) = c_entry_seq true pre ++ c_entry_seq true calls ++ c_entry_seq true post
+  /\ forallb (fun r => negb (is_ub r)) (c_entry_seq true calls) = true.
+Proof. exact (fun pre calls post => conj (entry_seq_independent pre calls post) (entry_seq_no_ub calls)). Qed.
+Print Assumptions C17_entry_sequences.
+
 (* Process.ionice(ioclass, value): never undefined; an ioclass outside 0..3 is a ValueError; what reaches
    ioprio_set(2) is a C int, equal to class * 2^13 + data for the accepted pairs *)
 Theorem C17_ionice_defined : forall pid ioclass value, is_ub (ionice_set pid ioclass value) = false.
